@@ -37,7 +37,7 @@ RULE = ("TWIN pipelines (cached / uncached) from the C02 generator (1..4 structu
         "history)")
 ASSUMPTIONS = ["values are strings (structural bodies); user functions are deterministic and do not raise",
                "non-shared caches, sequential execution; lazy pipelines and shared-cache parallel map runs are not exercised",
-               "every pipeline of a history is well-formed (mutations are generated so that construction-time validation "
+               "every pipeline of a history is well-formed (the ONLY side condition of the theorems; roots_okb is proved from it); mutations are generated so that construction-time validation "
                "accepts the result); update_bound never binds a parameter that has an explicit default",
                "the cached twin is constructed with an explicit cache_type (Pipeline.cache is not None)",
                "only the simple / lru policies (and DiskCache without eviction, which behaves as simple) are compared with "
